@@ -69,8 +69,20 @@ def candidates(scn):
                     s = copy.deepcopy(scn)
                     s["script"][t] = nf
                     yield s
-    for k in range(len(scn.get("pipes", [])) - 1, -1, -1):
-        if len(scn["pipes"]) > 1:
+    npipes = len(scn.get("pipes", []))
+    # delta debugging on the pipeline list: halves, quarters, ... then single pipelines
+    size = npipes // 2
+    while size >= 2:
+        for lo in range(0, npipes, size):
+            idx = list(range(lo, min(npipes, lo + size)))
+            if len(idx) < npipes:
+                s = scn
+                for k in reversed(idx):
+                    s = _drop_pipeline(s, k)
+                yield s
+        size //= 2
+    for k in range(npipes - 1, -1, -1):
+        if npipes > 1:
             yield _drop_pipeline(scn, k)
     if "script" in scn:
         for t in range(len(scn["script"])):
